@@ -15,11 +15,11 @@ git diff > $OUT/patch.diff
 git ls-files --others --exclude-standard | grep -v '^target/' > /tmp/demo-files-$ID.txt
 while read f; do mkdir -p $OUT/demo/$(dirname $f); cp $f $OUT/demo/$f; done < /tmp/demo-files-$ID.txt
 echo "== demo WITH change" >> $LOG
-cargo test --offline -j 8 -p $CRATE --test $TEST >> $LOG 2>&1; W=$?
+RUSTFLAGS="${CONFIRM_RUSTFLAGS:-}" cargo test --offline -j 8 -p $CRATE ${CONFIRM_FEATURES:-} --test $TEST >> $LOG 2>&1; W=$?
 echo "exit=$W" >> $LOG
 git stash -q
 echo "== demo WITHOUT change" >> $LOG
-cargo test --offline -j 8 -p $CRATE --test $TEST >> $LOG 2>&1; WO=$?
+RUSTFLAGS="${CONFIRM_RUSTFLAGS:-}" cargo test --offline -j 8 -p $CRATE ${CONFIRM_FEATURES:-} --test $TEST >> $LOG 2>&1; WO=$?
 echo "exit=$WO" >> $LOG
 git stash pop -q
 S=skipped
